@@ -613,9 +613,10 @@ Proof.
   pose proof (splice_relen_refines_pset S root m [id] x m' e R1 [] R2 xo tk) as Hfin.
   cbn [map rev frame_addrs ctxA length] in Hfin.
   unfold coded_set.
+  assert (Hpt0 : True) by exact I.
   assert (Hpt : path_type_lax S LSingular (TMsg root) [PField id] = Some (LSingular, fd_type fd)).
   { cbn [path_type_lax]. rewrite Hm. cbn [resolve_field]. rewrite Hf, Hl. reflexivity. }
-  rewrite Hpt. cbn [last_step map last].
+  rewrite Hpt. unfold coded_set_t. rewrite Hpt. cbn [last_step map last].
   unfold get_by_path. cbn [gwalk]. unfold gstep. cbn [td_msg]. rewrite Hm, Hf.
   change (blen (@nil Z)) with 0 in *.
   cbn [actx] in Hctx. rewrite Hm, Hf, Hl in Hctx.
